@@ -52,6 +52,11 @@ def handle : List String → Option String
       else do
         let (g, k) ← conds? sl
         some (out c (planSeries c ls (some (g, k))))
+    | "labelsunion", [col, label, scripts] => do
+      let l : Option Bytes ← if label = "NONE" then some none else (ofHex label).map some
+      let ps ← (scripts.splitOn "|").mapM conds?
+      let u := labelsUnion c (← Driver.C07.str? col) l ps
+      some s!"{hexOut u.render} {unionConfined lokiCfg (winProf c) u} {profOk c}"
     | "labelnames", [] => some (out c (labelsNoSel c "key" none))
     | "labelvalues", [l] => do some (out c (labelsNoSel c "val" (some (← ofHex l))))
     | _, _ => none
